@@ -690,6 +690,18 @@ fn judge(
             );
             return;
         };
+        // the same demand judged without the repository's validator: value constraints of the request schema
+        // (schemas/openresponses/openapi.json: FunctionCallItemParam / FunctionCallOutputItemParam) on the items
+        // the tool loop builds from what the provider streamed
+        let own = independent_item_errors(&body);
+        r.count("request_items_checked_against_schema_constraints", own.1);
+        if !own.0.is_empty() {
+            r.violation(
+                "C16/schema_invalid_request_body_sent",
+                &format!("a request whose input items violate the request schema's value constraints was sent: {}", own.0.join("; ")),
+                witness(json!({"request_index": rec.index, "errors": own.0, "body": body})),
+            );
+        }
         if let Err(errs) = rip_openresponses::validate_create_response_body(&body) {
             r.violation(
                 "C16/invalid_request_body_sent",
@@ -1080,4 +1092,54 @@ fn judge(
             "end_reason": reason,
         }));
     }
+}
+
+
+/// Value constraints of the CreateResponse request schema on tool-loop items, written down here from
+/// `schemas/openresponses/openapi.json` so that they do not depend on `rip_openresponses`' validator:
+/// `call_id` 1..=64 characters on function_call and function_call_output items; function_call `name`
+/// 1..=64 characters of `[a-zA-Z0-9_-]`; a string `output` of at most 10 485 760 characters.
+/// Returns (errors, items looked at).
+fn independent_item_errors(body: &Value) -> (Vec<String>, u64) {
+    let mut errs = Vec::new();
+    let mut n = 0u64;
+    let Some(items) = body.get("input").and_then(|x| x.as_array()) else {
+        return (errs, n);
+    };
+    for (i, it) in items.iter().enumerate() {
+        let ty = it.get("type").and_then(|x| x.as_str()).unwrap_or("");
+        if ty != "function_call" && ty != "function_call_output" {
+            continue;
+        }
+        n += 1;
+        match it.get("call_id").and_then(|x| x.as_str()) {
+            Some(c) => {
+                let len = c.chars().count();
+                if !(1..=64).contains(&len) {
+                    errs.push(format!("input[{i}] ({ty}): call_id has {len} characters, schema allows 1..=64"));
+                }
+            }
+            None => errs.push(format!("input[{i}] ({ty}): call_id missing or not a string")),
+        }
+        if ty == "function_call" {
+            match it.get("name").and_then(|x| x.as_str()) {
+                Some(nm) => {
+                    let len = nm.chars().count();
+                    let pat = nm.chars().all(|c| c.is_ascii_alphanumeric() || c == '_' || c == '-');
+                    if !(1..=64).contains(&len) || !pat {
+                        errs.push(format!("input[{i}] (function_call): name {:?} violates ^[a-zA-Z0-9_-]+$ / 1..=64", nm.chars().take(80).collect::<String>()));
+                    }
+                }
+                None => errs.push(format!("input[{i}] (function_call): name missing or not a string")),
+            }
+            if !it.get("arguments").map(|x| x.is_string()).unwrap_or(false) {
+                errs.push(format!("input[{i}] (function_call): arguments missing or not a string"));
+            }
+        } else if let Some(o) = it.get("output").and_then(|x| x.as_str()) {
+            if o.chars().count() > 10_485_760 {
+                errs.push(format!("input[{i}] (function_call_output): output longer than 10485760 characters"));
+            }
+        }
+    }
+    (errs, n)
 }
